@@ -2,11 +2,19 @@ package ast
 
 import (
 	"strconv"
+	"sync"
 )
 
+// capture_group_number numbers the regex groups of the source being parsed. It is
+// package-level state, so parse holds parseMutex from its first statement to its
+// return: it resets the counter, and only the parse call chain
+// (parse_regexp_groups) touches it. Concurrent parses are serialised.
+var parseMutex sync.Mutex
 var capture_group_number int = 0
 
 func parse(tokens []*Token) ([]AstCommand, error) {
+	parseMutex.Lock()
+	defer parseMutex.Unlock()
 	commands := []AstCommand{}
 	capture_group_number = 0
 	token_index := 0
